@@ -29,6 +29,7 @@ let sig_of_code = function
   | 4 -> "sig=not-retrievable a field is not found in the section its tag belongs to with its wire value"
   | 5 -> "sig=leading-order-accepted a message not starting with 8, 9, 35 is accepted"
   | 6 -> "sig=bodylength-accepted a message whose BodyLength disagrees with its content is accepted"
+  | 7 -> "sig=body-bytes-wrong bodyBytes (what a resend replays) is not the wire's body: it must end where the trailer fields begin"
   | _ -> "sig=unclassified"
 
 let run (_prop : string) (inp : Sx.t) (obs : Sx.t) : outcome =
@@ -62,7 +63,31 @@ let run (_prop : string) (inp : Sx.t) (obs : Sx.t) : outcome =
           | Some fs -> int_of_z (c11_check_fields fs extra_h extra_t ad_tags iobs)
           | None -> 0 in
         let c2 = int_of_z (c11_check_raw raw (iobs <> None)) in
-        if c1 <> 0 then false, sig_of_code c1 else if c2 <> 0 then false, sig_of_code c2 else true, "" in
+        (* bodyBytes: for a well-formed message whose trailer fields are contiguous at the end, the body bytes are a suffix of
+           the message up to the trailer (glue-level check; the session replays exactly these bytes, C03) *)
+        let c3 = match iobs with
+          | Some o when wire_ok && o.o_body_bytes <> [] ->
+              let ttags = List.map (fun (tg, _) -> tg) o.o_t in
+              let fl = List.filter (fun ((_, _), bs) -> bs <> []) o.o_fields in
+              let rec split_trailer acc = function
+                | [] -> acc
+                | (((tg, _), bs) :: r) as l ->
+                    if List.for_all (fun ((tg', _), _) -> List.mem tg' ttags) l then List.concat_map (fun ((_, _), b) -> b) l
+                    else split_trailer acc r in
+              let tb = split_trailer [] fl in
+              (* only when the sections are in order: no header field after the first body field *)
+              let btags = List.map (fun (tg, _) -> tg) o.o_b and htags = List.map (fun (tg, _) -> tg) o.o_h in
+              let rec ordered seen_body = function
+                | [] -> true
+                | ((tg, _), _) :: r -> if List.mem tg btags then ordered true r
+                                       else if List.mem tg htags && seen_body then false else ordered seen_body r in
+              let tb = if ordered false fl then tb else [] in
+              let rw = string_of_bytes raw and want = string_of_bytes (o.o_body_bytes @ tb) in
+              let lw = String.length want and lr = String.length rw in
+              if tb <> [] && (lw > lr || String.sub rw (lr - lw) lw <> want) then 7 else 0
+          | _ -> 0 in
+        if c1 <> 0 then false, sig_of_code c1 else if c2 <> 0 then false, sig_of_code c2
+        else if c3 <> 0 then false, sig_of_code c3 else true, "" in
   let dict = (match td, ad with None, None -> "nodict" | None, Some _ -> "app" | Some _, None -> "transport" | Some _, Some _ -> "transport+app") in
   let cls = (match fs_opt with Some _ -> if wire_ok then "fields:wire_ok" else "fields:other" | None -> "raw")
             ^ ":" ^ dict ^ ":" ^ (match model with Sx.A a -> a | _ -> "ok") in
